@@ -1,19 +1,23 @@
 /-
 Model of the metadata-refresh side of C15: `scylla/src/cluster/state.rs`
 
-* `nodeFor`, `newTopology`        ← `ClusterState::calculate_new_topology` (273-341): which `Node` objects are kept and
+* `nodeFor`, `newTopology`        ← `ClusterState::calculate_new_topology` (275-341): which `Node` objects are kept and
                                     which are re-created (host filter verdict, enabled flag, datacenter, rack, address).
 * `removedNodes`, `recreatedNodes`,
   `performTabletsMaintenance`     ← `ClusterState::perform_tablets_maintenance` (375-406): removed = hosts of the old
                                     `known_nodes` absent from the new one; recreated = hosts present in both whose `Arc<Node>`
                                     differs; then `TabletsInfo::perform_maintenance(keyspaces, removed, new_known_nodes, recreated)`.
-* `refresh`                       ← `ClusterState::new_updated` / `new_with_updated_topology` (205-270), tablets part.
+* `refresh`                       ← `ClusterState::new` (172-201) / `new_updated` (204-240) / `new_with_updated_topology` (242-270), tablets part.
 * `learn`                         ← one iteration of `ClusterState::update_tablets` (647-675): `Tablet::from_raw_tablet` against
                                     the current `known_nodes`, then `TabletsInfo::add_tablet`.
 * `resolveKeyspaces`, `refreshFetched` ← `ClusterState::resolve_metadata_keyspaces` (345-373) in front of `new_updated`: a keyspace
                                     whose fetch failed reuses the previous state's version, or is dropped if there is none.
 * `refreshTopology`               ← `ClusterState::new_with_updated_topology` (242-270): peers only, the keyspaces of `self`.
 * `locatorTabletReplicas`         ← the tablet branch of `ReplicaLocator::replicas_for_token` (`routing/locator/mod.rs:111-124`).
+* `KState`, `KOp`, `kstep`, `krun` ← histories on the cluster state WITH its keyspaces (`ClusterState.keyspaces` is what the next
+                                    refresh resolves failed fetches against and what `new_with_updated_topology` reuses).
+* `tabletFromResponse`            ← `Connection::update_tablets_from_response` (`network/connection.rs:1973-1996`, called after a
+                                    prepared EXECUTE, 1092-1098 and 1136-1140): what one response teaches, under which table.
 * `learnBatch`                    ← `ClusterState::update_tablets` itself: the `for (table, raw_tablet) in raw_tablets` loop over
                                     ONE BATCH, in order, with the translator closure over `self.known_nodes` built once.
 
@@ -92,7 +96,7 @@ structure CState where
 
 def CState.init : CState := ⟨[], Info.empty, 0⟩
 
-/-- the tablets part of `ClusterState::new` (old state empty) / `new_updated` / `new_with_updated_topology` -/
+/-- the tablets part of `ClusterState::new` (172-201, old state empty) / `new_updated` (204-240) / `new_with_updated_topology` (242-270) -/
 def refresh (cs : CState) (peers : List Peer) (keyspaces : List (String × Bool × List String)) : CState :=
   let t := newTopology cs.known cs.gen peers
   ⟨t.1, performTabletsMaintenance cs.info cs.known t.1 keyspaces, t.2⟩
@@ -155,5 +159,44 @@ ranges panics on a well-formed tablet map, so the two never differ on what `from
 def learnBatch (cs : CState) (batch : List RawItem) : CState × Bool :=
   let r := batch.foldl (learnItem (translator cs.known)) (cs.info, true)
   ({ cs with info := r.1 }, r.2)
+
+/-- the cluster state together with `ClusterState.keyspaces` -/
+structure KState where
+  cs : CState
+  kss : List KsMeta
+  deriving Repr
+
+def KState.init : KState := ⟨CState.init, []⟩
+
+inductive KOp where
+  /-- one `update_tablets` call -/
+  | batch (items : List RawItem)
+  /-- `new_updated` (`new` on the initial state) with the raw fetch result by keyspace name -/
+  | refresh (peers : List Peer) (fetched : List (String × Option KsMeta))
+  /-- `new_with_updated_topology` -/
+  | topology (peers : List Peer)
+
+/-- the keyspaces of the new state are the resolved ones; a topology-only refresh keeps them -/
+def kstep (st : KState) : KOp → KState
+  | .batch items => { st with cs := (learnBatch st.cs items).1 }
+  | .refresh peers fetched => ⟨refreshFetched st.cs peers fetched st.kss, resolveKeyspaces fetched st.kss⟩
+  | .topology peers => { st with cs := refreshTopology st.cs peers st.kss }
+
+def krun (ops : List KOp) : KState := ops.foldl kstep KState.init
+
+/-- `Connection::update_tablets_from_response`: `table` = `prepared_statement.get_table_spec()` (the caller does
+nothing without one; unprepared requests never get here), `sender` = the connection has a tablet channel, `cell` =
+the bytes under `tablets-routing-v1` in the response's custom payload (`none`: no custom payload or no such
+key).  Result: the tablet sent to the cluster worker (keyed by the STATEMENT's table) and whether a warning is
+logged.  The response handed back to the caller is not touched by any of this: a malformed payload is a warning,
+never a failed request. -/
+def tabletFromResponse (table : Option (String × String)) (sender : Bool) (cell : Option (List UInt8)) :
+    Option RawItem × Bool :=
+  match table, sender, cell with
+  | some spec, true, some bs =>
+    match parsePayload bs with
+    | .ok (f, l, r) => (some (spec, f, l, r), false)
+    | .error _ => (none, true)
+  | _, _, _ => (none, false)
 
 end ScyllaVerif.TabletsRefresh
